@@ -87,7 +87,10 @@ func (e *tableEnv) atom(w *walker, v ssa.Value) int {
 	case *ssa.BinOp:
 		if vv, nn, ok := nilCond(x); ok {
 			isNil := -1
-			if isErrorType(vv.Type()) {
+			vv = w.resolve(vv)
+			if isNilConst(stripTrivial(vv)) {
+				isNil = 1
+			} else if isErrorType(vv.Type()) {
 				isNil = 1
 			} else if e.isNil != nil {
 				if r := e.isNil(e.role(vv)); r != 0 {
